@@ -1,7 +1,7 @@
 /* limrun — run one Never program under many (heap size, stack size) pairs (property C14).
  *
  *   limrun [--entry NAME] [--arg A]... [--stdin FILE] [--timeout SEC] [--max-steps N]
- *          [--dump FILE] [--trace FILE] PROGRAM.nev MEM:STACK [MEM:STACK ...]
+ *          [--dump FILE] [--trace FILE] [--redzone N] PROGRAM.nev MEM:STACK [MEM:STACK ...]
  *
  * The program is compiled once with the tree's compiler (libnev.a built from /repo's current
  * tree, ASan+UBSan, -DNEVER_VERIF).  Every MEM:STACK pair is run in a forked child:
@@ -12,12 +12,21 @@
  *   --dump FILE    module dump: CODE <n> ENTRY <e>, I <addr> <op> <w0> <w1> <w2> <w3>, T functab
  *   --trace FILE   for the FIRST pair only: one line "t <ip> <sp>" per dispatched instruction
  *                  (state before it executes)
+ *   --redzone N    write detector on both sides of the configured stack: after vm_new the stack
+ *                  array is replaced by one of N + STACK + N slots, machine->stack pointing at slot
+ *                  N of it (machine->stack_size untouched), all bytes 0xA5.  At exit (normal end,
+ *                  exit(1) of a reported limit) the guard slots are compared with the pattern:
+ *                  rz=<front guard slots changed>,<back guard slots changed>,<lowest stack index
+ *                  >= STACK that changed | -1>.  A store further away than N slots still meets the
+ *                  sanitizer's own red zone.  Without the option: rz=- and the array is the exact
+ *                  malloc(STACK * sizeof(gc_stack)) of vm_new, watched by ASan.
  *
  * One line per pair on stdout:
  *   R mem=<M> stack=<S> status=<exit N|signal N|timeout|budget> steps=<n> last=<ip>,<sp>,<op>
  *     peak=<max sp seen before an instruction> ret=<nev_execute ret|-> result=<type>:<value>|-
  *     nilcell=<0|1: cell 0 of the heap holds an object at exit>
  *     heap=<free list head>,<cells 1.. holding an object>,<mem_size>   (at exit)
+ *     rz=<front>,<back>,<first>|-   (see --redzone)
  *     extent=<bytes allocated>/<bytes configured> for machine->stack, collector->mem, wb_list[0], wb_list[1]
  *            right after vm_new (stack_size * sizeof(gc_stack), mem_size * sizeof(gc_mem), mem_size * sizeof(mem_ptr))
  *     out=<hex stdout> err=<hex stderr>
@@ -60,12 +69,33 @@ typedef struct
     volatile unsigned heap_free, heap_used, heap_size;
     volatile long ext_have, ext_stack, ext_mem, ext_wb0, ext_wb1;
     volatile long long result_bits;
+    volatile int rz_have, rz_front, rz_back, rz_first;
 } shared;
 
 static shared * sh;
 static unsigned long max_steps = 5000000;
 static FILE * tracef = NULL;
 static vm * g_machine = NULL;
+static int redzone = 0;
+static gc_stack * rz_base = NULL, * rz_orig = NULL;
+static unsigned rz_stack = 0;
+
+static int rz_dirty(const gc_stack * slot)
+{
+    const unsigned char * b = (const unsigned char *)slot;
+    for (size_t k = 0; k < sizeof(gc_stack); k++) if (b[k] != 0xA5) return 1;
+    return 0;
+}
+
+static void rz_audit(void)
+{
+    if (!rz_base) return;
+    int front = 0, back = 0, first = -1;
+    for (int k = 0; k < redzone; k++) if (rz_dirty(rz_base + k)) front++;
+    for (int k = 0; k < redzone; k++)
+        if (rz_dirty(rz_base + redzone + rz_stack + k)) { back++; if (first < 0) first = (int)rz_stack + k; }
+    sh->rz_have = 1; sh->rz_front = front; sh->rz_back = back; sh->rz_first = first;
+}
 
 static void step_hook(vm * m, bytecode * bc)
 {
@@ -83,6 +113,7 @@ static void step_hook(vm * m, bytecode * bc)
 static void audit(void)
 {
     if (tracef) fflush(tracef);
+    rz_audit();
     if (g_machine && g_machine->collector && g_machine->collector->mem && g_machine->collector->mem_size > 0)
     {
         gc * c = g_machine->collector;
@@ -119,6 +150,7 @@ int main(int argc, char ** argv)
         else if (!strcmp(argv[i], "--max-steps") && i + 1 < argc) max_steps = strtoul(argv[++i], NULL, 10);
         else if (!strcmp(argv[i], "--dump") && i + 1 < argc) dump = argv[++i];
         else if (!strcmp(argv[i], "--trace") && i + 1 < argc) trace = argv[++i];
+        else if (!strcmp(argv[i], "--redzone") && i + 1 < argc) redzone = atoi(argv[++i]);
         else if (!file) file = argv[i];
         else if (npairs < 4096) pairs[npairs++] = argv[i];
     }
@@ -195,6 +227,16 @@ int main(int argc, char ** argv)
             sh->ext_wb0 = machine->collector->wb_list[0] ? (long)__sanitizer_get_allocated_size(machine->collector->wb_list[0]) : -1;
             sh->ext_wb1 = machine->collector->wb_list[1] ? (long)__sanitizer_get_allocated_size(machine->collector->wb_list[1]) : -1;
 #endif
+            if (redzone > 0)
+            {
+                size_t slots = (size_t)redzone * 2 + stack;
+                rz_base = (gc_stack *)malloc(slots * sizeof(gc_stack));
+                if (!rz_base) _exit(3);
+                memset(rz_base, 0xA5, slots * sizeof(gc_stack));
+                rz_stack = stack;
+                rz_orig = machine->stack;
+                machine->stack = rz_base + redzone;
+            }
             int r = nev_execute(prog, machine, &result);
             fflush(stdout);
             sh->ret = r; sh->have_ret = 1;
@@ -213,6 +255,7 @@ int main(int argc, char ** argv)
             }
             audit();
             g_machine = NULL;
+            if (rz_base) { machine->stack = rz_orig; free(rz_base); rz_base = NULL; }
             vm_delete(machine);
             if (tracef) fclose(tracef);
             tracef = NULL;
@@ -237,6 +280,7 @@ int main(int argc, char ** argv)
                    sh->ext_mem, (size_t)mem * sizeof(gc_mem), sh->ext_wb0, (size_t)mem * sizeof(mem_ptr),
                    sh->ext_wb1, (size_t)mem * sizeof(mem_ptr));
         else printf(" extent=-");
+        if (sh->rz_have) printf(" rz=%d,%d,%d", sh->rz_front, sh->rz_back, sh->rz_first); else printf(" rz=-");
         printf(" out=");
         hexfile(fo, 1 << 16);
         printf(" err=");
